@@ -1,0 +1,67 @@
+//go:build verif
+
+package immutable
+
+import (
+	"fmt"
+	"sync"
+
+	"github.com/openGemini/openGemini/lib/config"
+	"github.com/openGemini/openGemini/lib/util"
+)
+
+// Hook for the verification harness (/verif, property C03). Compiled only with the `verif`
+// build tag. It runs the level-compaction planner (getMmsPlan -> mmsPlan -> genCompactPlan ->
+// genCompactGroup) over a list of ordered files given only by what the planner reads of a
+// file: level, sequence, extent.
+
+// VerifPlanFile is an ordered data file as the planner sees it.
+type VerifPlanFile struct {
+	Level uint16
+	Seq   uint64
+	Ext   uint16
+}
+
+// verifPlanFile implements the three methods of TSSPFile the planner calls; any other call
+// would be a nil dereference (and show that the planner reads more than is modelled).
+type verifPlanFile struct {
+	TSSPFile
+	f    VerifPlanFile
+	path string
+}
+
+func (p *verifPlanFile) LevelAndSequence() (uint16, uint64) { return p.f.Level, p.f.Seq }
+func (p *verifPlanFile) FileNameExtend() uint16             { return p.f.Ext }
+func (p *verifPlanFile) Path() string                       { return p.path }
+
+var verifPlanStoreOnce sync.Once
+var verifPlanStore *MmsTables
+
+// VerifMmsPlan returns the plans of one planner pass for `level` as lists of indexes into
+// files (which must be in the order the shard keeps them: TSSPFiles.Less).
+func VerifMmsPlan(files []VerifPlanFile, level uint16, minGroupFileN int) [][]int {
+	verifPlanStoreOnce.Do(func() {
+		lock := ""
+		tier := uint64(util.Hot)
+		verifPlanStore = NewTableStore("/verif-plan-store-not-on-disk", &lock, &tier, false, NewTsStoreConfig())
+		verifPlanStore.SetImmTableType(config.TSSTORE)
+	})
+	fs := NewTSSPFiles()
+	idx := make(map[string]int, len(files))
+	for i, f := range files {
+		p := &verifPlanFile{f: f, path: fmt.Sprintf("verif-plan/%06d", i)}
+		idx[p.path] = i
+		fs.files = append(fs.files, p)
+	}
+	plans := verifPlanStore.getMmsPlan("verifplan", fs, level, minGroupFileN, nil)
+	out := make([][]int, 0, len(plans))
+	for _, pl := range plans {
+		g := make([]int, 0, len(pl.group))
+		for _, path := range pl.group {
+			g = append(g, idx[path])
+		}
+		out = append(out, g)
+		pl.release()
+	}
+	return out
+}
